@@ -13,6 +13,7 @@ import (
 	"time"
 
 	"github.com/dcaiafa/lox/verifharness/lib/cfggen"
+	"github.com/dcaiafa/lox/verifharness/lib/cfgm"
 	"github.com/dcaiafa/lox/verifharness/lib/ev"
 	"github.com/dcaiafa/lox/verifharness/lib/forge"
 	"github.com/dcaiafa/lox/verifharness/lib/lexgen"
@@ -22,9 +23,10 @@ import (
 )
 
 type Spec struct {
-	Name  string
-	Files map[string]string // .lox and user .go (package name "pkg")
-	Fast  bool              // import-free: eligible for the fast loader
+	Name    string
+	Files   map[string]string // .lox and user .go (package name "pkg")
+	Fast    bool              // import-free: eligible for the fast loader
+	Sibling int               // index of a spec that differs minimally (same output length, late difference); -1 if none
 }
 
 type Step struct {
@@ -96,9 +98,82 @@ dur = NUM unit
 unit = S | M S
 `
 
+// bigExprPair: an expression grammar with many @left operators and its sibling
+// in which the levels of the last two operators are swapped: the generated files
+// have the same length and differ only far from their beginning.
+func bigExprPair(rt *rapid.T) (*Spec, *Spec) {
+	nOps := ri(rt, 30, 36, "nops")
+	mk := func(swap bool) *Spec {
+		g := &cfgm.G{}
+		r := cfgm.Rule{Name: "e"}
+		for i := 0; i < nOps; i++ {
+			tn := fmt.Sprintf("T%c%c", 'A'+rune(i/26), 'A'+rune(i%26))
+			g.Toks = append(g.Toks, tn)
+			lvl := i + 1
+			if swap && i == nOps-2 {
+				lvl = nOps
+			} else if swap && i == nOps-1 {
+				lvl = nOps - 1
+			}
+			r.Prods = append(r.Prods, cfgm.Prod{Terms: []cfgm.Term{{Kind: cfgm.KSym, Name: "e"}, {Kind: cfgm.KSym, Name: tn, IsTok: true}, {Kind: cfgm.KSym, Name: "e"}}, Prec: lvl})
+		}
+		num := "NUM"
+		g.Toks = append(g.Toks, num)
+		r.Prods = append(r.Prods, cfgm.Prod{Terms: []cfgm.Term{{Kind: cfgm.KSym, Name: num, IsTok: true}}})
+		g.Rules = []cfgm.Rule{r}
+		return &Spec{Fast: true, Sibling: -1, Files: map[string]string{"g.lox": g.Lox(), "u.go": strings.ReplaceAll(pgo.UserGo(g, pgo.Opts{}), "package PKGNAME", "package pkg")}}
+	}
+	return mk(false), mk(true)
+}
+
+// bigLexPair: a keyword lexer and its sibling in which two late keywords swap their spellings.
+func bigLexPair(rt *rapid.T) (*Spec, *Spec) {
+	n := ri(rt, 70, 120, "nkw")
+	words := map[string]bool{}
+	var list []string
+	letters := []rune("abcdefgh")
+	for len(list) < n {
+		l := ri(rt, 3, 5, "kwl")
+		rs := make([]rune, l)
+		for j := range rs {
+			rs[j] = letters[ri(rt, 0, len(letters)-1, "kwc")]
+		}
+		if !words[string(rs)] && len(rs) == 4 || !words[string(rs)] && len(list) < n-2 {
+			words[string(rs)] = true
+			list = append(list, string(rs))
+		}
+	}
+	// the last two words have the same length so that swapping them keeps every size
+	list[n-1] = "hhhg"
+	list[n-2] = "hhgh"
+	mk := func(swap bool) *Spec {
+		var sb strings.Builder
+		sb.WriteString("@lexer\n@frag ' ' @discard\n")
+		for i, w := range list {
+			if swap && i == n-2 {
+				w = list[n-1]
+			} else if swap && i == n-1 {
+				w = list[n-2]
+			}
+			fmt.Fprintf(&sb, "KW%03d = '%s'\n", i, w)
+		}
+		return &Spec{Fast: true, Sibling: -1, Files: map[string]string{"g.lox": sb.String(), "u.go": strings.ReplaceAll(forge.LexStub, "package PKGNAME", "package pkg")}}
+	}
+	return mk(false), mk(true)
+}
+
 func genPool(rt *rapid.T, n int) []*Spec {
 	var pool []*Spec
-	pool = append(pool, &Spec{Name: "importing", Files: map[string]string{"g.lox": importingLox, "p.go": importingGo}})
+	pool = append(pool, &Spec{Name: "importing", Sibling: -1, Files: map[string]string{"g.lox": importingLox, "p.go": importingGo}})
+	a, b := bigExprPair(rt)
+	a.Name, b.Name, a.Sibling, b.Sibling = "bigexpr", "bigexpr-swapped", 2, 1
+	pool = append(pool, a, b)
+	pool = append(pool, &Spec{Name: "modes-differing-in-case-only", Fast: true, Sibling: -1, Files: map[string]string{
+		"g.lox": "@lexer\nA = 'a' @push_mode(Inner)\nB = 'b' @push_mode(INNER)\nC = 'c' @push_mode(inner)\nD = 'd' @push_mode(iNNer)\n@mode Inner {\n  E = 'e' @pop_mode\n}\n@mode INNER {\n  F = 'f' @pop_mode\n}\n@mode inner {\n  G = 'g' @pop_mode\n}\n@mode iNNer {\n  H = 'h' @pop_mode\n}\n",
+		"u.go":  strings.ReplaceAll(forge.LexStub, "package PKGNAME", "package pkg")}})
+	c, d := bigLexPair(rt)
+	c.Name, d.Name, c.Sibling, d.Sibling = "biglex", "biglex-swapped", 5, 4
+	pool = append(pool, c, d)
 	for len(pool) < n {
 		switch ri(rt, 0, 2, "kind") {
 		case 0: // lexer-heavy: many modes and overlapping ranges
@@ -107,7 +182,7 @@ func genPool(rt *rapid.T, n int) []*Spec {
 			if lx := loxb.Front1(text); lx.Panic != nil || !lx.OK {
 				continue
 			}
-			pool = append(pool, &Spec{Name: fmt.Sprintf("lex%d", len(pool)), Fast: true, Files: map[string]string{"g.lox": text, "u.go": strings.ReplaceAll(forge.LexStub, "package PKGNAME", "package pkg")}})
+			pool = append(pool, &Spec{Name: fmt.Sprintf("lex%d", len(pool)), Fast: true, Sibling: -1, Files: map[string]string{"g.lox": text, "u.go": strings.ReplaceAll(forge.LexStub, "package PKGNAME", "package pkg")}})
 		default: // grammar with many tokens, rules and generated helpers
 			g := cfggen.GenG(rt, cfggen.Opts{Sugar: true, Shapes: true, Guarded: true, SugarPct: 50, MaxTok: 7, MaxRul: 6})
 			lx := loxb.Front1(g.Lox())
@@ -115,7 +190,7 @@ func genPool(rt *rapid.T, n int) []*Spec {
 				continue
 			}
 			onb := rapid.Bool().Draw(rt, "onbounds")
-			pool = append(pool, &Spec{Name: fmt.Sprintf("cfg%d", len(pool)), Fast: true, Files: map[string]string{"g.lox": g.Lox(), "u.go": strings.ReplaceAll(pgo.UserGo(g, pgo.Opts{OnBounds: onb}), "package PKGNAME", "package pkg")}})
+			pool = append(pool, &Spec{Name: fmt.Sprintf("cfg%d", len(pool)), Fast: true, Sibling: -1, Files: map[string]string{"g.lox": g.Lox(), "u.go": strings.ReplaceAll(pgo.UserGo(g, pgo.Opts{OnBounds: onb}), "package PKGNAME", "package pkg")}})
 		}
 	}
 	return pool
@@ -328,14 +403,24 @@ func replay(run *ev.Run, c *Case, canon map[int]*output) (string, bool) {
 	return "", nontrivStale && nontrivChange
 }
 
-func genHistory(rt *rapid.T, nSpecs int) []Step {
+func genHistory(rt *rapid.T, pool []*Spec) []Step {
+	nSpecs := len(pool)
 	var h []Step
-	h = append(h, Step{Op: "writeSpec", Spec: ri(rt, 0, nSpecs-1, "s0")})
+	cur := ri(rt, 0, nSpecs-1, "s0")
+	if ri(rt, 0, 2, "startpair") == 0 {
+		cur = []int{1, 2, 4, 5}[ri(rt, 0, 3, "s0pair")]
+	}
+	h = append(h, Step{Op: "writeSpec", Spec: cur})
 	n := ri(rt, 4, 8, "steps")
 	for i := 0; i < n; i++ {
 		switch ri(rt, 0, 9, "op") {
 		case 0, 1:
-			h = append(h, Step{Op: "writeSpec", Spec: ri(rt, 0, nSpecs-1, "s")})
+			next := ri(rt, 0, nSpecs-1, "s")
+			if sib := pool[cur].Sibling; sib >= 0 && ri(rt, 0, 9, "sib") < 6 {
+				next = sib // a minimal edit of the current spec
+			}
+			cur = next
+			h = append(h, Step{Op: "writeSpec", Spec: cur})
 		case 2:
 			sub := []string{"base.gen.go", "lexer.gen.go", "parser.gen.go", "base.gen.go,parser.gen.go", "lexer.gen.go,parser.gen.go", "base.gen.go,lexer.gen.go,parser.gen.go"}
 			h = append(h, Step{Op: "deleteGenerated", Arg: sub[ri(rt, 0, len(sub)-1, "sub")]})
@@ -357,7 +442,7 @@ func genHistory(rt *rapid.T, nSpecs int) []Step {
 func TestC13(t *testing.T) {
 	run := ev.Start("C13")
 	defer run.Finish(t)
-	run.Rule = "a pool of order-sensitive packages (lexer specs with up to 3 modes, 8 rules per mode and overlapping ranges; grammars with up to 7 tokens, 6 rules and many generated helper rules, with and without _onBounds; a hand-written package whose actions use imported types) and rapid-generated histories over ONE directory: writeSpec(i), generate(in-process | lox binary; cwd = the directory | its parent | / ; absolute | relative path), deleteGenerated(subset), plantForeign(generated files of spec j), touchUserFile; " +
+	run.Rule = "a pool of order-sensitive packages (lexer specs with up to 3 modes, 8 rules per mode and overlapping ranges; grammars with up to 7 tokens, 6 rules and many generated helper rules, with and without _onBounds; a hand-written package whose actions use imported types; two sibling pairs that differ minimally - a 30-36 operator table with the levels of its last two operators swapped, a 70-120 keyword lexer with two late spellings swapped - so that regenerated files keep their length and differ only far from their beginning) and rapid-generated histories over ONE directory: writeSpec(i), generate(in-process | lox binary; cwd = the directory | its parent | / ; absolute | relative path), deleteGenerated(subset), plantForeign(generated files of spec j), touchUserFile; " +
 		"oracle: after every generate step the bytes of base.gen.go, lexer.gen.go, parser.gen.go and of the --report text equal those of a clean generation of the same spec in a fresh directory; in addition every import-free spec is regenerated repeatedly in-process (Go randomises map iteration per range statement, so repeats sample iteration orders) and must reproduce its bytes; " +
 		"non-trivial = history with a generate over stale files of a different spec and a change of process or working directory between generates; distinct by history"
 	run.Assumptions = []string{"touching a user file changes its mtime only", "the clean generation is in-process with cwd = the package directory"}
@@ -464,7 +549,7 @@ func TestC13(t *testing.T) {
 	canon := map[int]*output{}
 	nH := run.N(40, 300)
 	f := run.Check("histories", nH, 1, func(rt *rapid.T, fail ev.FailFunc) {
-		c := &Case{Specs: pool, History: genHistory(rt, len(pool))}
+		c := &Case{Specs: pool, History: genHistory(rt, pool)}
 		d, nt := replay(run, c, canon)
 		run.Class("histories")
 		if nt {
